@@ -2,7 +2,7 @@
    Pointer level (Layer B): the owning iterators move entries out of their buckets; the model tracks the
    ownership of every payload, and reading or dropping a payload that is not owned is a fault.
    Abstract level (Layer A): the repaired Drain empties the cache when it is created. *)
-Require Import LruV.B.TakingB LruV.A.LedgerA.
+Require Import LruV.B.TakingB LruV.A.LedgerA LruV.B.StepB LruV.B.RefineLemmas LruV.B.CloneB.
 
 (* Any run of a taking iterator (any pattern, any prefix, from either end) never reads a moved-out or
    uninitialised payload, moves out exactly the buckets it yielded, each once, and leaves every other
@@ -37,6 +37,18 @@ Theorem C17_into_iter_forget : forall s kind pat,
   e_dropped (snd (do_into_iter s kind pat FForget)) = yielded_drops kind (fst (take_ends (ents s) pat)).
 Proof. intros. unfold do_into_iter. destruct (take_ends (ents s) pat). cbn. now rewrite app_nil_r. Qed.
 
+(* the owning iterators at pointer level: on a coherent structure, for every pattern of next()/next_back() calls and
+   whether the iterator is then dropped or forgotten, the run never reads a moved-out payload (it does not fault), and the
+   items handed out and the set of objects dropped are exactly Layer A's — a forgotten iterator drops nothing more than
+   what it handed out and consumed, i.e. it only leaks *)
+Theorem C17_into_iter_pointer_level : forall b kind pat f o evs, RIg (bg b) -> bB_into_iter b kind pat f = Some (o, evs) ->
+  do_into_iter (absB b) kind pat f = (o, evs).
+Proof. exact into_iter_refines. Qed.
+Theorem C17_drop_pointer_level : forall b, bB_drop b = do_drop (absB b).
+Proof. exact drop_refines. Qed.
+
 Print Assumptions C17_taking_run.
 Print Assumptions C17_drain_forget.
 Print Assumptions C17_into_iter_forget.
+Print Assumptions C17_into_iter_pointer_level.
+Print Assumptions C17_drop_pointer_level.
